@@ -320,8 +320,18 @@ func (u *Unit) escapingClosures(fr *Frame, st *State, args []Val, where, callee 
 func (u *Unit) modularCall(fr *Frame, st *State, fn *ssa.Function, fc *FuncContract, key string, args []Val, where string, spawned bool) Val {
 	fc.Used = true
 	u.escapingClosures(fr, st, args, where, key)
-	names := paramNames(fn)
+	names := contractParamNames(fn, fc)
 	m := bindArgs(names, args)
+	// parameters that the code has grouped into a struct are still known to the contract by their own names
+	for _, a := range args {
+		if sv, ok := a.(*StructV); ok {
+			for j, fnm := range structFieldNames(sv) {
+				if _, taken := m[fnm]; !taken && j < len(sv.F) {
+					m[fnm] = sv.F[j]
+				}
+			}
+		}
+	}
 	bare := bareName(key)
 	env := u.newEnv(fr, st, st)
 	env.vars = map[string]Val{}
@@ -790,4 +800,31 @@ func (u *Unit) fnCallsNamed(fn *ssa.Function, name string) bool {
 		}
 	}
 	return false
+}
+
+
+// contractParamNames: the names under which a contract knows the parameters of its function. They are the names of
+// its header, bound by position, so that renaming a receiver or a parameter in the code does not detach the contract;
+// if the header lists a different number of parameters the names of the code are used.
+func contractParamNames(fn *ssa.Function, fc *FuncContract) []string {
+	names := paramNames(fn)
+	if fc == nil {
+		return names
+	}
+	recv, ps := fc.headerNames()
+	off := 0
+	if fn.Signature.Recv() != nil {
+		off = 1
+	}
+	if len(ps) != len(names)-off {
+		return names
+	}
+	out := append([]string{}, names...)
+	if off == 1 && recv != "" {
+		out[0] = recv
+	}
+	for i, q := range ps {
+		out[off+i] = q
+	}
+	return out
 }
